@@ -148,6 +148,27 @@ impl Deserializable for Context {
         // read options
         let options = ProofOptions::read_from(source)?;
 
+        // the constructor refuses traces and LDE domains which do not fit into 32 bits (the rest of
+        // the protocol relies on it, e.g. for the roots of unity of the domains); a context read
+        // from untrusted bytes must respect the same limits
+        let trace_length = trace_info.length();
+        if trace_length > u32::MAX as usize {
+            return Err(DeserializationError::InvalidValue(format!(
+                "trace length cannot be greater than {}, but was {trace_length}",
+                u32::MAX
+            )));
+        }
+        match trace_length.checked_mul(options.blowup_factor()) {
+            Some(lde_domain_size) if lde_domain_size <= u32::MAX as usize => {},
+            _ => {
+                return Err(DeserializationError::InvalidValue(format!(
+                    "LDE domain size cannot be greater than {}, but trace length was {trace_length} and blowup factor was {}",
+                    u32::MAX,
+                    options.blowup_factor()
+                )));
+            },
+        }
+
         Ok(Context { trace_info, field_modulus_bytes, options })
     }
 }
